@@ -418,6 +418,10 @@ pub fn parse_and_bind<R: FsModuleResolver>(
         }
     }
 
+    if symbol_exports.duplicate_default_export {
+        anyhow::bail!("A module cannot have multiple default exports: {file_name:?}");
+    }
+
     let f = Rc::new(ParsedModule {
         module,
         symbol_exports,
